@@ -17,7 +17,7 @@ PRELUDE = ["../common/base.rs", "../common/io.rs", "prelude.rs", "rabin_specs.rs
 RABIN = "crates/core/src/chunker/rabin.rs"
 FIXED = "crates/core/src/chunker/fixed_size.rs"
 
-R_ERR = lambda n=None: Rw("", "verr()", count=None, kind="err", why="RusticError construction (error kind/message/context dropped)")
+R_ERR = lambda n=None: Rw("", "verr()", count=None, kind="err", optional=True, why="RusticError construction (error kind/message/context dropped)")
 R_TAKE = Rw(r"\(&mut self\.reader\)\s*\.take\((?P<n>[^()]*(?:\([^()]*\))?[^()]*)\)\s*\.read_to_end\(&mut vec\)",
             r"vstd_take_read_to_end(&mut self.reader, \g<n>, &mut vec)", regex=True,
             why="std::io::Read::take + read_to_end (assumed contract in common/io.rs)")
